@@ -18,7 +18,7 @@ def run_worlds(chk, replay, machine, tracemod, replay_cmd, renderers, plans, sam
         return "%s:%s:b%d:%d:%s" % (e["r"], "x".join(map(str, e["dims"])), e["base"], e["code"], why)
 
     if replay and replay["replay"].get("kind") == "scene":
-        raise vlib.Inconclusive("scene observations are re-run by seed: VERIF_SEED=%s" % replay.get("seed"))
+        return  # the caller re-runs the scene stage (run_scenes with only=...)
     if replay:
         vec = [replay["replay"]["vector"]]
         obs, bad = replay_and_judge(vec, (replay["replay"]["renderer"],))
@@ -92,17 +92,24 @@ def run_worlds(chk, replay, machine, tracemod, replay_cmd, renderers, plans, sam
                              "rendered by the real renderers and the real output is judged by the trace spec"))
 
 
-def run_scenes(chk, cmd):
-    """T part: real shapes at real coordinates / resolutions / alignments, judged by MeshStatTrace.tla"""
+def run_scenes(chk, cmd, only=None):
+    """T part: real shapes at real coordinates / resolutions / alignments, judged by MeshStatTrace.tla.
+    only: a recorded observation (replay): the scenes are regenerated from its seed and only that one is reported."""
     out = chk.vh([cmd], timeout=1800)
     obs = [json.loads(x) for x in out.splitlines() if x.strip()]
     bad = chk.validate("MeshStatTrace", obs, chunks=1, timeout=900)
     chk.traces += len(obs)
+    if only is not None:
+        same = lambda e: all(e[k] == only[k] for k in ("shape", "r", "cells", "param"))
+        if not any(same(e) for e in obs):
+            raise vlib.Inconclusive("the recorded scene is not regenerated with VERIF_SEED=%s" % chk.seed)
+        bad = [(e, why) for e, why in bad if same(e)]
     for e, why in bad:
         chk.violation("scene:%s:%s:%d:%s" % (e["shape"], e["r"], e["cells"], why),
                       "real %s output of %s (%s) at %d cells rejected: %s (items=%d unmatched=%d degenerate=%d outside=%d)" % (
                           e["r"], e["shape"], e["param"], e["cells"], why, e["nt"], e["unmatched"], e["degen"], e["outside"]),
                       dict(kind="scene", obs=e))
     chk.cov["real_scenes_judged"] = len(obs)
+    chk.cov["real_scene_slivers_below_1e-6_cell_not_judged"] = sum(e.get("neardegen", 0) for e in obs)
     if obs:
         chk.sample(dict(scene={k: obs[0][k] for k in ("shape", "r", "cells", "nt", "unmatched", "degen")}))
